@@ -1,10 +1,17 @@
 #!/bin/bash
 # seed_check.sh <PROP> <seed dir> : apply an (already confirmed) seeded change to /repo, run the quick check, undo.
+# CAPTURE=1: keep the shrunk case that exposed the change as regress/<PROP>/<seed>.json (the regression tier).
 export GOFLAGS=-mod=mod GOPROXY=off GOSUMDB=off GOTOOLCHAIN=local
 prop=$1; d=$(realpath $2)
 cd /verif
 [ -n "$(git -C /repo status --short)" ] && { echo "repo not clean"; exit 9; }
 git -C /repo apply $d/patch.diff || { echo cannot-apply; exit 3; }
 trap 'git -C /repo checkout -q -- .; git -C /repo clean -fdq' EXIT
-out=$(./check --prop $prop --tier ${TIER:-quick} 2>&1); rc=$?
+out=$(VERIF_NO_REGRESS=${CAPTURE:+1} ./check --prop $prop --tier ${TIER:-quick} 2>&1); rc=$?
 echo "seed $(basename $d) check $prop: exit $rc $(echo "$out" | grep -E '^violation|^INCONCLUSIVE' | head -2 | cut -c1-300 | tr '\n' ' ')"
+if [ -n "$CAPTURE" ] && [ $rc -eq 1 ]; then
+  f=$(echo "$out" | sed -n 's/^VIOLATION property=[^ ]* replay=//p' | head -1)
+  if [ -f "$f" ] && [[ "$f" == *.json ]] && grep -q '"case"' "$f"; then
+    mkdir -p regress/$prop; cp "$f" regress/$prop/$(basename $d).json
+  fi
+fi
